@@ -604,8 +604,10 @@ impl Grid {
 
             for (col, ss) in summed_squared_intensities.iter().enumerate() {
                 let dot = spectral_angle[(file, col)];
+                // Rounding can push the cosine of a perfectly matching envelope above 1.0,
+                // where `acos` is NaN and the trace would be discarded
                 let similarity = if *ss > 0.0 {
-                    dot / (ss.sqrt() * ss_dist)
+                    (dot / (ss.sqrt() * ss_dist)).min(1.0)
                 } else {
                     0.0
                 };
